@@ -179,6 +179,15 @@ impl ConcurrentStatsCounter {
     }
 }
 
+#[cfg(feature = "cached_verif")]
+/// The hit ratio the counter reports after `hits` hits and `misses` misses.
+pub fn verif_hit_ratio(hits: u64, misses: u64) -> f64 {
+    let counter = ConcurrentStatsCounter::new();
+    counter.add(StatsType::CacheHits, hits);
+    counter.add(StatsType::CacheMisses, misses);
+    counter.hit_ratio()
+}
+
 #[cfg(test)]
 mod tests {
     use std::collections::HashMap;
